@@ -16,6 +16,7 @@
 import RumaModel.Lemmas.EventSign
 import RumaModel.Lemmas.EventSignSize
 import RumaModel.Lemmas.EventSignCopy
+import RumaModel.Lemmas.EventSignCopyTpi
 import RumaModel.Lemmas.EventSignChain
 import RumaModel.Lemmas.EventSignExamples
 import RumaModel.Props.C02
@@ -163,8 +164,9 @@ theorem verify_after_sign_chain (S : SigScheme) (hS : S.Lawful) (sha256 : List N
 any event just hashed and signed — verifies with valid signatures (`All` or `Signatures`, never an
 error), whenever the servers the version demands *of the redacted copy* all appear in `signatures`.
 Uses C04's `redact_idempotent`: the signed bytes of the copy are those of the original.
-The side condition is discharged by `servers_of_redacted_copy` below except for invites created
-from a third-party invite (finding recorded in `findings/C03.json`). -/
+The side condition is discharged by `servers_of_redacted_copy_same_tpi` below except for invites
+created from a third-party invite whose redacted copy no longer is one (finding recorded in
+`findings/C03.json`). -/
 theorem verify_redacted_copy_of_covered (S : SigScheme) (sha256 : List Nat → List Nat) (x : Ids.Ext)
     (keys : KeyMap) (e' red : Obj) (rr : Rules) (sr : SigRules)
     (hs : Obj.Sorted e') (hv : Valid S sha256 keys rr e') (hred : redact rr e' none = .ok red)
@@ -185,12 +187,13 @@ theorem verify_redacted_copy_of_covered (S : SigScheme) (sha256 : List Nat → L
     rw [hsig] at h1; injection h1 with h1; injection h1 with h1; subst h1
     exact hall s h2
 
-/-- For an event that is *not* an invite created from a third-party invite, every server the
-version demands of the redacted copy is demanded of the original as well (the copy keeps `sender`
-and `event_id`; `content.join_authorised_via_users_server` can only disappear). -/
-theorem servers_of_redacted_copy (x : Ids.Ext) (v : Nat) (e red : Obj) (l l' : List Str)
+/-- If the redacted copy is an invite created from a third-party invite whenever the original is one
+(`h3`; the copy can never *become* one), every server the version demands of the redacted copy is
+demanded of the original as well (the copy keeps `sender` and `event_id`;
+`content.join_authorised_via_users_server` can only disappear). -/
+theorem servers_of_redacted_copy_same_tpi (x : Ids.Ext) (v : Nat) (e red : Obj) (l l' : List Str)
     (hred : redact (rulesOf v) e none = .ok red)
-    (h3 : isThirdPartyInvite e = false)
+    (h3 : isThirdPartyInvite red = false → isThirdPartyInvite e = false)
     (hl : serversToCheck x e (sigRulesOf v) = .ok l)
     (hl' : serversToCheck x red (sigRulesOf v) = .ok l') :
     ∀ s ∈ l', s ∈ l := by
@@ -198,8 +201,8 @@ theorem servers_of_redacted_copy (x : Ids.Ext) (v : Nat) (e red : Obj) (l l' : L
   rw [(servers_spec x v e l hl).1]
   have hr := ((servers_spec x v red l' hl').1 s).mp hs
   obtain ⟨hty, hse, hei, _, _⟩ := serversToCheck_redact_fields (rulesOf v) e red hred
-  rcases hr with ⟨_, u, hu, hsp⟩ | ⟨hc, i, hi, hsp⟩ | ⟨hc, c, a, hcc, ha, hsp⟩
-  · exact Or.inl ⟨h3, u, by rw [← hse]; exact hu, hsp⟩
+  rcases hr with ⟨h3r, u, hu, hsp⟩ | ⟨hc, i, hi, hsp⟩ | ⟨hc, c, a, hcc, ha, hsp⟩
+  · exact Or.inl ⟨h3 h3r, u, by rw [← hse]; exact hu, hsp⟩
   · exact Or.inr (Or.inl ⟨hc, i, by rw [← hei]; exact hi, hsp⟩)
   · -- the redacted content is a sub-object of the original content with unchanged values here
     obtain ⟨ty, htyv, hcase⟩ := Props.C04.redact_ok_shape _ _ _ hred
@@ -214,6 +217,15 @@ theorem servers_of_redacted_copy (x : Ids.Ext) (v : Nat) (e red : Obj) (l l' : L
       have hsub := content_get_of_redacted (rulesOf v) ty c0 c' hrc
         (bs "join_authorised_via_users_server") (by decide) (.str a) ha
       exact Or.inr (Or.inr ⟨hc, c0, a, hc0, hsub, hsp⟩)
+
+/-- In particular for an event that is *not* an invite created from a third-party invite. -/
+theorem servers_of_redacted_copy (x : Ids.Ext) (v : Nat) (e red : Obj) (l l' : List Str)
+    (hred : redact (rulesOf v) e none = .ok red)
+    (h3 : isThirdPartyInvite e = false)
+    (hl : serversToCheck x e (sigRulesOf v) = .ok l)
+    (hl' : serversToCheck x red (sigRulesOf v) = .ok l') :
+    ∀ s ∈ l', s ∈ l :=
+  servers_of_redacted_copy_same_tpi x v e red l l' hred (fun _ => h3) hl hl'
 
 /-! ### `unsigned` -/
 
@@ -325,14 +337,19 @@ theorem verify_strip_mutation (S : SigScheme) (sha256 : List Nat → List Nat)
     rw [hhash] at heq
     exact hpre (hnc heq.symm)
 
-/-- **`verify_kept_mutation`**, reduced to the scheme exactly as in C02: let `e'` be an event
+/-- **`verify_kept_mutation`, proven part**, reduced to the scheme exactly as in C02. It is
+`_partial` because of the hypothesis `hmem : entity ∈ servers`: it speaks only about a signer whose
+signature `verify_event` demands of the *changed* event. The full sentence of the property
+(`VerifyKeptMutationStatement` below) is false: `verify_kept_mutation_statement_false` (of an invite
+created from a third-party invite no signature at all is demanded from room version 3 on; finding in
+`findings/C03.json`). Let `e'` be an event
 hashed and signed by `entity`, and let `e''` be *any* event that still carries `e'`'s `signatures`
 and for which `entity` is among the demanded servers. If `verify_event` accepts `e''` (either
 verdict), then the scheme accepts the signature made over the redacted bytes of `e'` as a signature
 of the redacted bytes of `e''`. When a field that redaction keeps was changed these byte strings
 differ, so acceptance would be a forgery — excluded by the unforgeability assumption of the trusted
 base, which is not proven here. -/
-theorem verify_kept_mutation (S : SigScheme) (hS : S.Lawful) (sha256 : List Nat → List Nat)
+theorem verify_kept_mutation_partial (S : SigScheme) (hS : S.Lawful) (sha256 : List Nat → List Nat)
     (x : Ids.Ext) (keys : KeyMap) (entity : Str) (kp : KeyPair) (e e' e'' red' red'' : Obj)
     (rr : Rules) (sr : SigRules) (r : Verified)
     (hsign : hashAndSignEvent S sha256 entity kp e rr = (.ok (), e'))
@@ -365,8 +382,9 @@ theorem verify_kept_mutation (S : SigScheme) (hS : S.Lawful) (sha256 : List Nat 
   exact hverify
 
 /-- Contrapositive: if the scheme rejects the old signature on the new redacted bytes, the changed
-event fails verification. -/
-theorem verify_kept_mutation_rejects (S : SigScheme) (hS : S.Lawful) (sha256 : List Nat → List Nat)
+event fails verification — again only when the signer is among the servers demanded of the changed
+event (`hmem`), hence `_partial`. -/
+theorem verify_kept_mutation_rejects_partial (S : SigScheme) (hS : S.Lawful) (sha256 : List Nat → List Nat)
     (x : Ids.Ext) (keys : KeyMap) (entity : Str) (kp : KeyPair) (e e' e'' red' red'' : Obj)
     (rr : Rules) (sr : SigRules)
     (hsign : hashAndSignEvent S sha256 entity kp e rr = (.ok (), e'))
@@ -379,7 +397,7 @@ theorem verify_kept_mutation_rejects (S : SigScheme) (hS : S.Lawful) (sha256 : L
   cases hres : verifyEvent S sha256 x keys e'' rr sr with
   | error err => exact ⟨err, rfl⟩
   | ok r =>
-    have := verify_kept_mutation S hS sha256 x keys entity kp e e' e'' red' red'' rr sr r hsign
+    have := verify_kept_mutation_partial S hS sha256 x keys entity kp e e' e'' red' red'' rr sr r hsign
       hk hsigs hred' hred'' servers hsrv hmem hres
     rw [this] at hrej; cases hrej
 
@@ -405,8 +423,8 @@ set_option maxRecDepth 8192 in
 third-party invite no server's signature is demanded from room version 3 on (the sender's server is
 exempt and there is no event-ID server), so `verify_event` looks at no signature at all: changing
 `state_key` — kept by redaction, covered by the signature — leaves the result `Ok(Signatures)`.
-`verify_kept_mutation` above is the proven part: it speaks about servers that *are* demanded of the
-changed event. -/
+`verify_kept_mutation_partial` above is the proven part: it speaks about servers that *are* demanded
+of the changed event. -/
 theorem verify_kept_mutation_statement_false : ¬ VerifyKeptMutationStatement := by
   intro h
   have hw : ∃ e' e'' red' red'',
@@ -461,12 +479,41 @@ theorem verify_redacted_copy_statement_false : ¬ VerifyRedactedCopyStatement :=
   rw [h5] at hr
   cases hr
 
-/-- **`verify_redacted_copy`, proven part** (the exclusion is exactly the counterexample's class):
-take a fresh event that is *not* an invite created from a third-party invite, hash and sign it with
-the room version's redaction rules; if the signer is the only server the version demands, then the
+/-- **`verify_redacted_copy`, proven part.** The exclusion `h3` is the class the counterexample
+lives in: invites created from a third-party invite whose redacted copy is no longer recognised as
+one (the copy can never *become* one). That class is: every such invite in room versions 1–10
+(redaction strips `content.third_party_invite`), and in version 11 those whose
+`third_party_invite` has no `signed` member (`verify_redacted_copy_v11_tpi` below proves the
+version 11 case with `signed`; `verify_redacted_copy_not_tpi` the case of all other events).
+Take a fresh event, hash and sign it with the room version's redaction rules; if the signer is the
+only server the version demands and the copy is a third-party invite iff the event is, then the
 redacted copy verifies with valid signatures — `All` or `Signatures`, never an error. Every room
 version number, every event, every key. -/
 theorem verify_redacted_copy_partial (S : SigScheme) (hS : S.Lawful) (sha256 : List Nat → List Nat)
+    (x : Ids.Ext) (keys : KeyMap) (entity : Str) (kp : KeyPair) (e e' red : Obj) (v : Nat)
+    (hfresh : Obj.get e sigKey = none)
+    (hsign : hashAndSignEvent S sha256 entity kp e (rulesOf v) = (.ok (), e'))
+    (hk : HasKey S keys entity kp) (hs : Obj.Sorted e')
+    (servers : List Str) (hsrv : serversToCheck x e' (sigRulesOf v) = .ok servers)
+    (honly : ∀ s ∈ servers, s = entity)
+    (hred : redact (rulesOf v) e' none = .ok red)
+    (h3 : isThirdPartyInvite red = isThirdPartyInvite e') :
+    ∃ r, verifyEvent S sha256 x keys red (rulesOf v) (sigRulesOf v) = .ok r := by
+  obtain ⟨servers', hsrv'⟩ :=
+    serversToCheck_redacted_ok_same x (rulesOf v) (sigRulesOf v) e' red servers hred h3 hsrv
+  obtain ⟨hv, red0, hsig, _⟩ :=
+    valid_after_sign S hS sha256 keys entity kp e e' (rulesOf v) hsign hk (Or.inl hfresh)
+  refine verify_redacted_copy_of_covered S sha256 x keys e' red (rulesOf v) (sigRulesOf v) hs hv hred
+    servers' hsrv' ?_
+  intro s hs'
+  have := servers_of_redacted_copy_same_tpi x v e' red servers servers' hred (fun h => h3 ▸ h) hsrv hsrv' s hs'
+  refine ⟨_, hsig, ?_⟩
+  rw [honly s this]
+  exact Obj.mem_keys_of_get _ _ _ (Obj.get_insert_self _ _ _)
+
+/-- The case of every event that is *not* an invite created from a third-party invite, in every
+room version (the statement this file proved before the audit). -/
+theorem verify_redacted_copy_not_tpi (S : SigScheme) (hS : S.Lawful) (sha256 : List Nat → List Nat)
     (x : Ids.Ext) (keys : KeyMap) (entity : Str) (kp : KeyPair) (e e' red : Obj) (v : Nat)
     (hfresh : Obj.get e sigKey = none)
     (hsign : hashAndSignEvent S sha256 entity kp e (rulesOf v) = (.ok (), e'))
@@ -475,22 +522,37 @@ theorem verify_redacted_copy_partial (S : SigScheme) (hS : S.Lawful) (sha256 : L
     (servers : List Str) (hsrv : serversToCheck x e' (sigRulesOf v) = .ok servers)
     (honly : ∀ s ∈ servers, s = entity)
     (hred : redact (rulesOf v) e' none = .ok red) :
-    ∃ r, verifyEvent S sha256 x keys red (rulesOf v) (sigRulesOf v) = .ok r := by
-  obtain ⟨servers', hsrv'⟩ := serversToCheck_redacted_ok x (rulesOf v) (sigRulesOf v) e' red servers hred h3 hsrv
-  obtain ⟨hv, red0, hsig, _⟩ :=
-    valid_after_sign S hS sha256 keys entity kp e e' (rulesOf v) hsign hk (Or.inl hfresh)
-  refine verify_redacted_copy_of_covered S sha256 x keys e' red (rulesOf v) (sigRulesOf v) hs hv hred
-    servers' hsrv' ?_
-  intro s hs'
-  have := servers_of_redacted_copy x v e' red servers servers' hred h3 hsrv hsrv' s hs'
-  refine ⟨_, hsig, ?_⟩
-  rw [honly s this]
-  exact Obj.mem_keys_of_get _ _ _ (Obj.get_insert_self _ _ _)
+    ∃ r, verifyEvent S sha256 x keys red (rulesOf v) (sigRulesOf v) = .ok r :=
+  verify_redacted_copy_partial S hS sha256 x keys entity kp e e' red v hfresh hsign hk hs servers hsrv
+    honly hred
+    (by rw [h3]; exact isThirdPartyInvite_redacted_false x (rulesOf v) (sigRulesOf v) e' red servers hred h3 hsrv)
+
+/-- **Room version 11** (every version whose rules keep `third_party_invite.signed`): the redacted
+copy of a hashed-and-signed invite created from a third-party invite *with* a `signed` member
+verifies with valid signatures — the situation the version 11 change of the redaction algorithm was
+made for, and the complement (within version 11) of the counterexample's class. -/
+theorem verify_redacted_copy_v11_tpi (S : SigScheme) (hS : S.Lawful) (sha256 : List Nat → List Nat)
+    (x : Ids.Ext) (keys : KeyMap) (entity : Str) (kp : KeyPair) (e e' red c tpi : Obj) (sg : JVal) (v : Nat)
+    (hfresh : Obj.get e sigKey = none)
+    (hsign : hashAndSignEvent S sha256 entity kp e (rulesOf v) = (.ok (), e'))
+    (hk : HasKey S keys entity kp) (hs : Obj.Sorted e')
+    (hkeep : (rulesOf v).keepMemberTpiSigned = true)
+    (h3 : isThirdPartyInvite e' = true)
+    (hc : Obj.get e' (bs "content") = some (.obj c))
+    (ht : Obj.get c (bs "third_party_invite") = some (.obj tpi))
+    (hsg : Obj.get tpi (bs "signed") = some sg)
+    (servers : List Str) (hsrv : serversToCheck x e' (sigRulesOf v) = .ok servers)
+    (honly : ∀ s ∈ servers, s = entity)
+    (hred : redact (rulesOf v) e' none = .ok red) :
+    ∃ r, verifyEvent S sha256 x keys red (rulesOf v) (sigRulesOf v) = .ok r :=
+  verify_redacted_copy_partial S hS sha256 x keys entity kp e e' red v hfresh hsign hk hs servers hsrv
+    honly hred
+    (by rw [h3]; exact isThirdPartyInvite_redacted_keep (rulesOf v) e' red c tpi sg hred hkeep h3 hc ht hsg)
 
 /-! ### Non-vacuity -/
 
 set_option maxRecDepth 8192 in
-/-- The hypotheses of `verify_after_sign`, `verify_redacted_copy_partial`, `verify_ignores_unsigned`
+/-- The hypotheses of `verify_after_sign`, `verify_redacted_copy_partial` (`_not_tpi`), `verify_ignores_unsigned`
 hold on a concrete message event with a lawful (toy) scheme, and the conclusions compute: signing
 succeeds, the only demanded server is the signer, the signed event verifies as `All`, its redacted
 copy as `Signatures`. -/
@@ -516,6 +578,125 @@ example : ∃ e',
       e' (rulesOf 10) (sigRulesOf 10) = .ok .all :=
   ⟨_, ⟨rfl, by unfold Obj.Sorted; decide, fun hs h => by cases h⟩, rfl, rfl, rfl⟩
 
+set_option maxRecDepth 8192 in
+/-- `verify_strip_mutation`: all its hypotheses hold together on a concrete input. The message event
+signed by `s` (`Ex.signedByS`, valid by `verify_after_sign_valid`) gets another `content.body`:
+redaction strips the content of an `m.room.message`, so the redacted event is the same (`hsame`);
+the same single server is demanded and it has signed (`hcov`); the hashed bytes differ (`hpre`) and
+are short; the toy digest differs on them (so `hnc` holds); and the verdict goes from `All` to
+`Signatures`. -/
+example : ∃ e'',
+    Valid Props.C02.toy Ex.sha Ex.keysS (rulesOf 10) Ex.signedByS ∧
+    e'' = setVal Ex.signedByS (bs "content") (.obj [(bs "body", .str (bs "ho"))]) ∧
+    redact (rulesOf 10) e'' none = redact (rulesOf 10) Ex.signedByS none ∧
+    serversToCheck Ex.ext e'' (sigRulesOf 10) = .ok [bs "s"] ∧
+    (∀ s ∈ [bs "s"], ∃ sigs, Obj.get Ex.signedByS sigKey = some (.obj sigs) ∧ s ∈ Obj.keys sigs) ∧
+    Spec.Hash.contentPreimage e'' ≠ Spec.Hash.contentPreimage Ex.signedByS ∧
+    (Spec.Hash.contentPreimage e'').length ≤ 65535 ∧
+    (Ex.sha (Spec.Hash.contentPreimage e'') = Ex.sha (Spec.Hash.contentPreimage Ex.signedByS) →
+      Spec.Hash.contentPreimage e'' = Spec.Hash.contentPreimage Ex.signedByS) ∧
+    verifyEvent Props.C02.toy Ex.sha Ex.ext Ex.keysS Ex.signedByS (rulesOf 10) (sigRulesOf 10) = .ok .all ∧
+    verifyEvent Props.C02.toy Ex.sha Ex.ext Ex.keysS e'' (rulesOf 10) (sigRulesOf 10) = .ok .signatures := by
+  refine ⟨_, ?_, rfl, rfl, rfl, ?_, by decide, by decide, ?_, rfl, rfl⟩
+  · exact (verify_after_sign_valid Props.C02.toy Props.C02.toy_lawful Ex.sha Ex.sha_bytes Ex.ext Ex.keysS
+      (bs "s") Ex.kp Ex.message Ex.signedByS (rulesOf 10) (sigRulesOf 10) rfl ⟨_, rfl, rfl⟩ (Or.inl rfl)).1
+  · intro s hs
+    simp only [List.mem_cons, List.not_mem_nil, or_false] at hs
+    subst hs
+    exact ⟨_, rfl, by decide⟩
+  · intro h; exact absurd h (by decide)
+
+set_option maxRecDepth 8192 in
+/-- `verify_kept_mutation_rejects_partial` (and `verify_kept_mutation_partial`): the hypotheses hold
+on a concrete input. In the signed message event the `sender` — kept by redaction — is changed from
+`@a:s` to `@b:s`: the signatures are carried over, both events redact, the signer `s` is still the
+demanded server, the toy scheme rejects the old signature on the new redacted bytes, and
+`verify_event` fails. -/
+example : ∃ e'' red' red'',
+    hashAndSignEvent Props.C02.toy Ex.sha (bs "s") Ex.kp Ex.message (rulesOf 10) = (.ok (), Ex.signedByS) ∧
+    HasKey Props.C02.toy Ex.keysS (bs "s") Ex.kp ∧
+    e'' = setVal Ex.signedByS (bs "sender") (.str (bs "@b:s")) ∧
+    Obj.get e'' sigKey = Obj.get Ex.signedByS sigKey ∧
+    redact (rulesOf 10) Ex.signedByS none = .ok red' ∧ redact (rulesOf 10) e'' none = .ok red'' ∧
+    serversToCheck Ex.ext e'' (sigRulesOf 10) = .ok [bs "s"] ∧ bs "s" ∈ [bs "s"] ∧
+    Props.C02.toy.verify (Props.C02.toy.pub Ex.kp.secret) (canonicalJson red'')
+      (Props.C02.toy.sign Ex.kp.secret (canonicalJson red')) = false ∧
+    verifyEvent Props.C02.toy Ex.sha Ex.ext Ex.keysS e'' (rulesOf 10) (sigRulesOf 10)
+      = .error (.sign .signatureInvalid) :=
+  ⟨_, _, _, rfl, ⟨_, rfl, rfl⟩, rfl, rfl, rfl, rfl, rfl, by decide, by decide, rfl⟩
+
+set_option maxRecDepth 8192 in
+/-- `verify_fails_without_server`: the hypotheses hold on a concrete input — the signed message
+event checked against a key map that does not know the demanded server `s` (second disjunct of
+`hbad`) — and `verify_event` fails. -/
+example : ∃ red sigs,
+    redact (rulesOf 10) Ex.signedByS none = .ok red ∧ Obj.get Ex.signedByS sigKey = some (.obj sigs) ∧
+    serversToCheck Ex.ext Ex.signedByS (sigRulesOf 10) = .ok [bs "s"] ∧ bs "s" ∈ [bs "s"] ∧
+    (Obj.get sigs (bs "s") = none ∨ Obj.get Ex.keysB (bs "s") = none ∨
+      ¬ EntityVerifies Props.C02.toy Ex.keysB sigs (canonicalJson red) (bs "s")) ∧
+    verifyEvent Props.C02.toy Ex.sha Ex.ext Ex.keysB Ex.signedByS (rulesOf 10) (sigRulesOf 10)
+      = .error (.sign .noPublicKeysForEntity) :=
+  ⟨_, _, rfl, rfl, rfl, by decide, Or.inr (Or.inl rfl), rfl⟩
+
+set_option maxRecDepth 8192 in
+/-- `servers_of_redacted_copy`: the hypotheses hold for the signed message event and its redacted
+copy (both demand exactly server `s`). -/
+example : ∃ red,
+    redact (rulesOf 10) Ex.signedByS none = .ok red ∧ isThirdPartyInvite Ex.signedByS = false ∧
+    serversToCheck Ex.ext Ex.signedByS (sigRulesOf 10) = .ok [bs "s"] ∧
+    serversToCheck Ex.ext red (sigRulesOf 10) = .ok [bs "s"] :=
+  ⟨_, rfl, rfl, rfl, rfl⟩
+
+set_option maxRecDepth 8192 in
+/-- `verify_after_sign_valid`, second disjunct of `h0`: the event to be signed already carries a
+signature (of server `t`: `Ex.signedByT`), and its redacted, hashed form verifies against the key
+map; signing by `s` then gives an event that verifies as `All`. -/
+example : Obj.get Ex.signedByT sigKey ≠ none ∧
+    (∀ hashes hash red, redact (rulesOf 10) (withHash Ex.signedByT hashes hash) none = .ok red →
+      Hash.contentHash Ex.sha Ex.signedByT = .ok hash →
+      ((Obj.get Ex.signedByT hashesKey = none ∧ hashes = []) ∨
+        Obj.get Ex.signedByT hashesKey = some (.obj hashes)) →
+      verifyJson Props.C02.toy Ex.keysST red = .ok ()) ∧
+    ∃ e', hashAndSignEvent Props.C02.toy Ex.sha (bs "s") Ex.kp Ex.signedByT (rulesOf 10) = (.ok (), e') ∧
+      verifyEvent Props.C02.toy Ex.sha Ex.ext Ex.keysST e' (rulesOf 10) (sigRulesOf 10) = .ok .all := by
+  refine ⟨by decide, ?_, _, rfl, rfl⟩
+  intro hashes hash red h1 h2 h3
+  have hh : Hash.contentHash Ex.sha Ex.signedByT
+      = .ok (Ex.sha (Spec.Hash.contentPreimage Ex.signedByT)) := rfl
+  rw [hh] at h2
+  injection h2 with h2
+  subst h2
+  rcases h3 with ⟨hn, _⟩ | h3
+  · exact absurd hn (by decide)
+  · have hg : Obj.get Ex.signedByT hashesKey
+        = some (.obj [(sha256Key, .str (b64 (Ex.sha (Spec.Hash.contentPreimage Ex.message))))]) := rfl
+    rw [hg] at h3
+    injection h3 with h3; injection h3 with h3
+    subst h3
+    have hr : redact (rulesOf 10)
+        (withHash Ex.signedByT [(sha256Key, .str (b64 (Ex.sha (Spec.Hash.contentPreimage Ex.message))))]
+          (Ex.sha (Spec.Hash.contentPreimage Ex.signedByT))) none
+        = .ok (match redact (rulesOf 10) Ex.signedByT none with | .ok r => r | .error _ => []) := rfl
+    rw [hr] at h1
+    injection h1 with h1
+    subst h1
+    rfl
+
+set_option maxRecDepth 8192 in
+/-- `verify_redacted_copy_v11_tpi`: the hypotheses hold on the third-party invite of the refutations,
+now under the version 11 rules: signed by `b` alone (all that is demanded), its redacted copy keeps
+`third_party_invite.signed`, is still such an invite, demands no further server and verifies. The
+same event under the version 10 rules is the counterexample `verify_redacted_copy_statement_false`. -/
+example : ∃ e' red c tpi sg,
+    hashAndSignEvent Props.C02.toy Ex.sha (bs "b") Ex.kp Ex.thirdPartyInvite (rulesOf 11) = (.ok (), e') ∧
+    Obj.Sorted e' ∧ (rulesOf 11).keepMemberTpiSigned = true ∧ isThirdPartyInvite e' = true ∧
+    Obj.get e' (bs "content") = some (.obj c) ∧ Obj.get c (bs "third_party_invite") = some (.obj tpi) ∧
+    Obj.get tpi (bs "signed") = some sg ∧
+    serversToCheck Ex.ext e' (sigRulesOf 11) = .ok [] ∧
+    redact (rulesOf 11) e' none = .ok red ∧ isThirdPartyInvite red = true ∧
+    verifyEvent Props.C02.toy Ex.sha Ex.ext Ex.keysB red (rulesOf 11) (sigRulesOf 11) = .ok .signatures :=
+  ⟨_, _, _, _, _, rfl, by unfold Obj.Sorted; decide, rfl, rfl, rfl, rfl, rfl, rfl, rfl, rfl, rfl⟩
+
 #print axioms signatures_table_eq_spec
 #print axioms redaction_table_eq_spec
 #print axioms servers_spec
@@ -526,13 +707,16 @@ example : ∃ e',
 #print axioms verify_after_sign_chain
 #print axioms verify_redacted_copy_of_covered
 #print axioms verify_redacted_copy_partial
+#print axioms verify_redacted_copy_not_tpi
+#print axioms verify_redacted_copy_v11_tpi
 #print axioms verify_redacted_copy_statement_false
+#print axioms servers_of_redacted_copy_same_tpi
 #print axioms servers_of_redacted_copy
 #print axioms verify_ignores_unsigned
 #print axioms verify_needs_every_server
 #print axioms verify_fails_without_server
 #print axioms verify_strip_mutation
-#print axioms verify_kept_mutation
-#print axioms verify_kept_mutation_rejects
+#print axioms verify_kept_mutation_partial
+#print axioms verify_kept_mutation_rejects_partial
 #print axioms verify_kept_mutation_statement_false
 end Ruma.Props.C03
